@@ -142,7 +142,11 @@ Check c03_non_vacuous : match parse (rt_sample ++ bs "* 1 EXISTS") with
   | _ => False end.
 Print Assumptions c03_non_vacuous.
 
-(* all of the above as one statement: Spec.enc_response is the union of the relations *)
+(* all of the above as one statement: Spec.enc_response is the union of the relations.  It now reaches every rule of the
+   response grammar: every alternative of response_data (status responses with each of the 19 response codes, all
+   mailbox data incl. FLAGS and the Gmail items, EXPUNGE, FETCH with each of the 14 message attributes incl. body
+   structures, CAPABILITY, ENABLED, METADATA solicited and unsolicited with the entry names of RFC 5464, VANISHED,
+   QUOTA, QUOTAROOT, ID with its map semantics, ACL, LISTRIGHTS, MYRIGHTS), tagged completions and continuation requests *)
 Theorem c03_response_roundtrip : forall v w, enc_response v w -> forall rest, parse (w ++ rest) = ROk rest v (nlen w).
 Proof. exact response_roundtrip. Qed.
 Check c03_response_roundtrip : forall v w, enc_response v w -> forall rest, parse (w ++ rest) = ROk rest v (nlen w).
